@@ -172,6 +172,11 @@ impl StorageEngine {
             || name.contains('\0')
             || name.contains("..")
             || name == "."
+            // ':' separates graph and relation in shard names ("<graph>:<relation>")
+            || name.contains(':')
+            // the engine's own directories live next to the graphs' directories
+            || name == "persist"
+            || name == "metadata"
         {
             return Err(StorageError::InvalidRelationName(name.to_string()));
         }
